@@ -3,7 +3,10 @@
 // its answer, cancel the caller's context, use the returned reader (read part of it, read it
 // to the end, ask for its descriptor), close the returned reader.  A member is the fake
 // registry itself or something built around it (an inner ociunify registry of either read
-// policy, a pass-through wrapper, a reader with more methods than BlobReader).  After an event with
+// policy, a pass-through wrapper, a reader with more methods than BlobReader).  A member's
+// failure comes in flavours (a plain error, the member's own cancellation or deadline while the
+// caller's context is live, OCI and HTTP errors, ...) and the caller's context ends by cancel
+// or by deadline: the property does not tell them apart, so the unifier must not.  After an event with
 // wait set the harness lets everything run until every goroutine is blocked or gone (decided
 // from the goroutine profile, not by sleeping) and records a snapshot: the call's result, per
 // member whether its call started / returned, its context state when it returned and now, the
@@ -52,6 +55,14 @@ type input struct {
 	// wrap-conc-l | wrap-conc-r - see shapes below.
 	S0 string `json:"s0,omitempty"`
 	S1 string `json:"s1,omitempty"`
+	// F0, F1: what the member's failure looks like to errors.Is / errors.As (failKinds below).
+	// The property knows success and failure only, so the prediction does not depend on it.
+	F0 string `json:"f0,omitempty"`
+	F1 string `json:"f1,omitempty"`
+	// End: how the caller's context ends at the "cancel" event: "" - its cancel function is
+	// called (Err() = context.Canceled); "deadline" - it expires (Err() = context.DeadlineExceeded).
+	// Either way the caller has given up: the prediction does not depend on it.
+	End string `json:"end,omitempty"`
 	// CloseErr makes every member reader's Close return an error (the property does not
 	// depend on what Close returns; the model's prediction is the same).
 	CloseErr bool `json:"close_err,omitempty"`
@@ -118,6 +129,65 @@ func isBlob(entry string) bool { return strings.HasPrefix(entry, "Get") }
 
 var memberErr = [2]error{errors.New("member 0 says no"), errors.New("member 1 says no")}
 
+// failKinds: the flavours of a member's failure.  Each is an error that still answers
+// errors.Is(memberErr[i]) (that is how the harness tells whose error came back) and besides
+// looks to errors.Is / errors.As / interface tests like something a real member produces:
+//
+//	""                 nothing else
+//	ctx-canceled       wraps context.Canceled: the member's OWN cancellation (an upstream abort),
+//	                   whatever the state of the context it was given
+//	ctx-deadline       wraps context.DeadlineExceeded: the member's own deadline (an ociclient
+//	                   over an http.Client with a Timeout, a per-request deadline)
+//	timeout            a net.Error-like error (Timeout() and Temporary() true) wrapping os.ErrDeadlineExceeded
+//	oci-unknown        the entry point's not-found code (BLOB_UNKNOWN / MANIFEST_UNKNOWN)
+//	oci-name-unknown   NAME_UNKNOWN
+//	oci-denied         DENIED
+//	oci-unauthorized   UNAUTHORIZED
+//	http-503           an ociregistry.HTTPError with status 503
+//	range-invalid      an ociregistry.HTTPError with status 416 (answers Is(ErrRangeInvalid))
+//	eof                wraps io.ErrUnexpectedEOF
+var failKinds = []string{"", "ctx-canceled", "ctx-deadline", "timeout", "oci-unknown", "oci-name-unknown",
+	"oci-denied", "oci-unauthorized", "http-503", "range-invalid", "eof"}
+
+type timeoutErr struct{ error }
+
+func (timeoutErr) Timeout() bool   { return true }
+func (timeoutErr) Temporary() bool { return true }
+func (e timeoutErr) Unwrap() error { return e.error }
+
+// flavoured gives the error base (one of the harness's own sentinels) the flavour of kind.
+func flavoured(base error, kind, entry string) error {
+	with := func(e error) error { return fmt.Errorf("%w: %w", base, e) }
+	switch kind {
+	case "":
+		return base
+	case "ctx-canceled":
+		return with(context.Canceled)
+	case "ctx-deadline":
+		return with(context.DeadlineExceeded)
+	case "timeout":
+		return timeoutErr{with(os.ErrDeadlineExceeded)}
+	case "oci-unknown":
+		if strings.Contains(entry, "Manifest") {
+			return with(ociregistry.ErrManifestUnknown)
+		}
+		return with(ociregistry.ErrBlobUnknown)
+	case "oci-name-unknown":
+		return with(ociregistry.ErrNameUnknown)
+	case "oci-denied":
+		return with(ociregistry.ErrDenied)
+	case "oci-unauthorized":
+		return with(ociregistry.ErrUnauthorized)
+	case "http-503":
+		return ociregistry.NewHTTPError(base, 503, nil, nil)
+	case "range-invalid":
+		return ociregistry.NewHTTPError(base, 416, nil, nil)
+	case "eof":
+		return with(io.ErrUnexpectedEOF)
+	}
+	panic("unknown failure kind " + kind)
+}
+
 func memberDigest(i int) ociregistry.Digest {
 	return ociregistry.Digest("sha256:" + strings.Repeat(fmt.Sprint(i), 64))
 }
@@ -134,7 +204,8 @@ type fakeReader struct {
 	mu     sync.Mutex
 	closes int
 	err    error // returned by Close
-	failAt int   // Read fails with errRead once this many bytes have been delivered (-1: never)
+	failAt int   // Read fails with rdErr once this many bytes have been delivered (-1: never)
+	rdErr  error // errRead in some flavour
 	served int
 }
 
@@ -143,7 +214,7 @@ func (r *fakeReader) Read(buf []byte) (int, error) {
 	defer r.mu.Unlock()
 	if r.failAt >= 0 {
 		if r.served >= r.failAt {
-			return 0, errRead
+			return 0, r.rdErr
 		}
 		if len(buf) > r.failAt-r.served {
 			buf = buf[:r.failAt-r.served]
@@ -194,7 +265,9 @@ type member struct {
 	deadAtRet bool
 	rd        *fakeReader
 	calls     int
+	fail      error // what the member fails with (memberErr[idx] in the flavour of the case)
 	closeErr  error // returned by Close of the readers this member hands out
+	readErrV  error // what Read of those readers fails with when readErr is set
 	readErr   bool  // the readers this member hands out fail half way through
 	rich      bool  // ... and are richReaders
 
@@ -236,7 +309,7 @@ func (m *member) reader(ctx context.Context) (ociregistry.BlobReader, error) {
 		content := memberContent(m.idx)
 		rd := &fakeReader{src: bytes.NewReader([]byte(content)),
 			desc: ociregistry.Descriptor{MediaType: "application/octet-stream", Digest: memberDigest(m.idx), Size: int64(len(content))},
-			err:  m.closeErr, failAt: -1}
+			err:  m.closeErr, failAt: -1, rdErr: m.readErrV}
 		if m.readErr {
 			rd.failAt = len(content) / 2
 		}
@@ -247,7 +320,7 @@ func (m *member) reader(ctx context.Context) (ociregistry.BlobReader, error) {
 		return rd, nil
 	}
 	m.finish(ctx, false, nil)
-	return nil, memberErr[m.idx]
+	return nil, m.fail
 }
 
 func (m *member) descriptor(ctx context.Context) (ociregistry.Descriptor, error) {
@@ -256,7 +329,7 @@ func (m *member) descriptor(ctx context.Context) (ociregistry.Descriptor, error)
 		return ociregistry.Descriptor{MediaType: "application/octet-stream", Digest: memberDigest(m.idx), Size: 17}, nil
 	}
 	m.finish(ctx, false, nil)
-	return ociregistry.Descriptor{}, memberErr[m.idx]
+	return ociregistry.Descriptor{}, m.fail
 }
 
 func (m *member) registry() ociregistry.Interface {
@@ -279,10 +352,10 @@ func (m *member) registry() ociregistry.Interface {
 	}
 }
 
-// dud is a registry that fails every read at once, with member i's error.
-func dud(i int) ociregistry.Interface {
-	rd := func() (ociregistry.BlobReader, error) { return nil, memberErr[i] }
-	ds := func() (ociregistry.Descriptor, error) { return ociregistry.Descriptor{}, memberErr[i] }
+// dud is a registry that fails every read at once, with the member's error.
+func dud(fail error) ociregistry.Interface {
+	rd := func() (ociregistry.BlobReader, error) { return nil, fail }
+	ds := func() (ociregistry.Descriptor, error) { return ociregistry.Descriptor{}, fail }
 	return &ociregistry.Funcs{
 		GetBlob_: func(ctx context.Context, repo string, digest ociregistry.Digest) (ociregistry.BlobReader, error) {
 			return rd()
@@ -369,9 +442,9 @@ func (m *member) build(shape string) ociregistry.Interface {
 	}
 	var inner ociregistry.Interface
 	if strings.HasSuffix(shape, "-l") {
-		inner = ociunify.New(leaf, dud(m.idx), &ociunify.Options{ReadPolicy: policy})
+		inner = ociunify.New(leaf, dud(m.fail), &ociunify.Options{ReadPolicy: policy})
 	} else {
-		inner = ociunify.New(dud(m.idx), leaf, &ociunify.Options{ReadPolicy: policy})
+		inner = ociunify.New(dud(m.fail), leaf, &ociunify.Options{ReadPolicy: policy})
 	}
 	if strings.HasPrefix(shape, "wrap-") {
 		m.wrapped = true
@@ -381,7 +454,7 @@ func (m *member) build(shape string) ociregistry.Interface {
 }
 
 func newMember(i int, kind string) *member {
-	m := &member{idx: i, gate: make(chan bool, 1)}
+	m := &member{idx: i, gate: make(chan bool, 1), fail: memberErr[i], readErrV: errRead}
 	switch kind {
 	case "oncancel-succ":
 		m.onCancel, m.answer = true, true
@@ -389,6 +462,70 @@ func newMember(i int, kind string) *member {
 		m.onCancel, m.answer = true, false
 	}
 	return m
+}
+
+// ---------------------------------------------------------------- the caller's context
+
+// expiringCtx is a caller's context that ends by running out of time, at the moment the
+// harness says so (a context.WithDeadline would need a real timer).  It offers AfterFunc, which
+// is how package context (Go 1.21 and later) hooks a derived context to a parent that is not
+// its own: no helper goroutine, and - as with a standard parent - the derived contexts are done
+// before expire returns.
+type expiringCtx struct {
+	mu    sync.Mutex
+	done  chan struct{}
+	err   error
+	funcs map[int]func()
+	next  int
+	when  time.Time
+}
+
+func newExpiringCtx() *expiringCtx {
+	return &expiringCtx{done: make(chan struct{}), funcs: map[int]func(){}, when: time.Now().Add(time.Hour)}
+}
+
+func (c *expiringCtx) Deadline() (time.Time, bool) { return c.when, true }
+func (c *expiringCtx) Done() <-chan struct{}       { return c.done }
+func (c *expiringCtx) Value(any) any               { return nil }
+func (c *expiringCtx) Err() error {
+	c.mu.Lock()
+	defer c.mu.Unlock()
+	return c.err
+}
+
+func (c *expiringCtx) AfterFunc(f func()) (stop func() bool) {
+	c.mu.Lock()
+	defer c.mu.Unlock()
+	if c.err != nil {
+		go f()
+		return func() bool { return false }
+	}
+	id := c.next
+	c.next++
+	c.funcs[id] = f
+	return func() bool {
+		c.mu.Lock()
+		defer c.mu.Unlock()
+		_, ok := c.funcs[id]
+		delete(c.funcs, id)
+		return ok
+	}
+}
+
+func (c *expiringCtx) expire() {
+	c.mu.Lock()
+	if c.err != nil {
+		c.mu.Unlock()
+		return
+	}
+	c.err = context.DeadlineExceeded
+	close(c.done)
+	fs := c.funcs
+	c.funcs = nil
+	c.mu.Unlock()
+	for _, f := range fs {
+		f()
+	}
 }
 
 // ---------------------------------------------------------------- goroutine profile
@@ -535,14 +672,25 @@ func runCase(in input) runResult {
 		base[g.id] = true
 	}
 	ms := [2]*member{newMember(0, in.K0), newMember(1, in.K1)}
-	if in.CloseErr {
-		ms[0].closeErr = errors.New("close of member 0's reader fails")
-		ms[1].closeErr = errors.New("close of member 1's reader fails")
+	for i, fk := range []string{in.F0, in.F1} {
+		ms[i].fail = flavoured(memberErr[i], fk, in.Entry)
+		ms[i].readErrV = flavoured(errRead, fk, in.Entry)
+		if in.CloseErr {
+			ms[i].closeErr = flavoured(fmt.Errorf("close of member %d's reader fails", i), fk, in.Entry)
+		}
 	}
 	ms[0].readErr, ms[1].readErr = in.ReadErr, in.ReadErr
 	u := ociunify.New(ms[0].build(in.S0), ms[1].build(in.S1), &ociunify.Options{ReadPolicy: ociunify.ReadConcurrent})
 	harnessGID := myGID()
-	ctx, cancel := context.WithCancel(context.Background())
+	var ctx context.Context
+	var cancel func()
+	ctxEnd := context.Canceled // what the caller's context says once the caller has given up
+	if in.End == "deadline" {
+		ec := newExpiringCtx()
+		ctx, cancel, ctxEnd = ec, ec.expire, context.DeadlineExceeded
+	} else {
+		ctx, cancel = context.WithCancel(context.Background())
+	}
 	defer cancel()
 
 	var (
@@ -628,7 +776,7 @@ func runCase(in input) runResult {
 			return "err0"
 		case errors.Is(err, memberErr[1]):
 			return "err1"
-		case errors.Is(err, context.Canceled):
+		case errors.Is(err, ctxEnd):
 			return "errctx"
 		}
 		return "other:error " + err.Error()
@@ -871,6 +1019,13 @@ func coqShape(sh string) string {
 	return "(ShSeq " + hx.Bool(strings.HasPrefix(sh, "wrap-")) + " " + l + ")"
 }
 
+func coqFail(k string) string {
+	return map[string]string{"": "FkPlain", "ctx-canceled": "FkCtxCanceled", "ctx-deadline": "FkCtxDeadline",
+		"timeout": "FkTimeout", "oci-unknown": "FkOciUnknown", "oci-name-unknown": "FkOciNameUnknown",
+		"oci-denied": "FkOciDenied", "oci-unauthorized": "FkOciUnauthorized", "http-503": "FkHttp503",
+		"range-invalid": "FkRange", "eof": "FkEof"}[k]
+}
+
 func coqRes(r string) string {
 	switch r {
 	case "none":
@@ -915,8 +1070,9 @@ func coqCase(in input, snaps []snapshot) string {
 	for _, s := range snaps {
 		sn = append(sn, coqSnap(s))
 	}
-	return fmt.Sprintf("{| c_entry := %s; c_k0 := %s; c_k1 := %s; c_sh0 := %s; c_sh1 := %s; c_sched := %s; c_snaps := %s |}",
-		in.Entry, coqKind(in.K0), coqKind(in.K1), coqShape(in.S0), coqShape(in.S1), hx.List(evs), hx.List(sn))
+	return fmt.Sprintf("{| c_entry := %s; c_k0 := %s; c_k1 := %s; c_sh0 := %s; c_sh1 := %s; c_f0 := %s; c_f1 := %s; c_end := %s; c_sched := %s; c_snaps := %s |}",
+		in.Entry, coqKind(in.K0), coqKind(in.K1), coqShape(in.S0), coqShape(in.S1), coqFail(in.F0), coqFail(in.F1),
+		map[string]string{"": "EndCancel", "deadline": "EndDeadline"}[in.End], hx.List(evs), hx.List(sn))
 }
 
 // ---------------------------------------------------------------- generation
@@ -993,6 +1149,71 @@ func withUses(sched []item, salt int) []item {
 	return out
 }
 
+// flavourMatrix yields, for one entry point, the schedules in which the flavour of a failure
+// could matter to a unifier that looked at it - both members gated, no cancellation until the
+// end: one member fails and the other succeeds (every flavour x which member fails x which
+// answers first), both fail (every flavour paired with itself and with the next one x both
+// orders); then the caller's Close where there is a reader, then the cancellation.
+func flavourMatrix(entry string, emit func(input)) {
+	tail := []item{{Ev: "cancel", Wait: true}}
+	if isBlob(entry) {
+		tail = append([]item{{Ev: "close", Wait: true}}, tail...)
+	}
+	played := 0
+	play := func(f0, f1, a0, a1 string, first int) {
+		rets := []item{{Ev: "ret", M: 0, Ans: a0, Wait: true}, {Ev: "ret", M: 1, Ans: a1, Wait: true}}
+		if first == 1 {
+			rets[0], rets[1] = rets[1], rets[0]
+		}
+		sched := append(append([]item{{Ev: "start", Wait: true}}, rets...), tail...)
+		in := input{Entry: entry, K0: "gated", K1: "gated", F0: f0, F1: f1, Sched: sched}
+		if played++; played%2 == 0 {
+			in.End = "deadline"
+		}
+		emit(in)
+	}
+	for j, fk := range failKinds {
+		next := failKinds[(j+1)%len(failKinds)]
+		for first := 0; first < 2; first++ {
+			play(fk, next, "fail", "succ", first)
+			play(next, fk, "succ", "fail", first)
+			play(fk, fk, "fail", "fail", first)
+			play(fk, next, "fail", "fail", first)
+		}
+	}
+}
+
+// firstAnswer: the member whose answer the schedule lets out first after the call is made,
+// the caller's context being live until then - and whether that answer is a failure while the
+// other member's is a success (gated members only: the others answer after a cancellation).
+func firstAnswer(in input) (m int, failsAlone bool, ok bool) {
+	started := false
+	ans := map[int]string{}
+	for _, it := range in.Sched {
+		if it.Ev == "ret" {
+			ans[it.M] = it.Ans
+		}
+	}
+	for _, it := range in.Sched {
+		switch it.Ev {
+		case "start":
+			started = true
+		case "cancel":
+			return 0, false, false
+		case "ret":
+			if k := []string{in.K0, in.K1}[it.M]; k != "gated" {
+				continue
+			}
+			if !started {
+				return 0, false, false // ready when the call starts: no saying which answer is taken first
+			}
+			other := []string{in.K0, in.K1}[1-it.M]
+			return it.M, it.Ans == "fail" && (ans[1-it.M] == "succ" && other == "gated" || other == "oncancel-succ"), true
+		}
+	}
+	return 0, false, false
+}
+
 func main() {
 	cfg := hx.ParseFlags()
 	out := hx.NewOut(cfg, "Obs.C16")
@@ -1049,6 +1270,13 @@ func main() {
 			out.Count("kinds:" + in.K0 + "," + in.K1)
 			out.Count("origin:" + origin)
 			out.Count("shapes:" + shapeClass(in.S0) + "," + shapeClass(in.S1))
+			out.Count("caller-context-ends-by:" + map[string]string{"": "cancel", "deadline": "deadline"}[in.End])
+			out.Count("failure-flavour-m0:" + in.F0)
+			out.Count("failure-flavour-m1:" + in.F1)
+			if m, alone, ok := firstAnswer(in); ok && alone {
+				// the schedules in which an error-sniffing unifier would go wrong
+				out.Count("first-answer-fails-other-would-succeed:" + in.Entry + ":" + []string{in.F0, in.F1}[m])
+			}
 			if in.CloseErr {
 				out.Count("member-readers:close-fails")
 			}
@@ -1119,6 +1347,8 @@ func main() {
 	//   (read in part / to the end / asked for its descriptor) after every event, member readers
 	//   whose Read fails on every other schedule;  3 and up: members of other shapes (every
 	//   pair of shapes in turn), with and without the above.
+	// In every round the flavours of the two members' failures rotate through all pairs.
+	nk := len(failKinds)
 	reps := 4
 	if cfg.Thorough() {
 		reps = 25
@@ -1128,6 +1358,11 @@ func main() {
 		for _, e := range entries {
 			enumerate(e, func(in input) {
 				n++
+				fk := (n*7 + rep*29) % (nk * nk)
+				in.F0, in.F1 = failKinds[fk%nk], failKinds[fk/nk]
+				if (n+rep)%3 == 0 {
+					in.End = "deadline"
+				}
 				switch {
 				case rep == 0:
 				case rep == 1:
@@ -1147,6 +1382,10 @@ func main() {
 				add(fit(in), "enumerated")
 			})
 		}
+	}
+	// every flavour of failure in the schedules where a member's failure is looked at
+	for _, e := range entries {
+		flavourMatrix(e, func(in input) { add(in, "flavours") })
 	}
 	// bursts: the same events, but not every one waited for, so that answers, cancellation
 	// and the selects really race
@@ -1179,7 +1418,11 @@ func main() {
 			sched = append(sched, it)
 		}
 		sched[len(sched)-1].Wait = true
-		in := input{Entry: entry, K0: k0, K1: k1, CloseErr: rnd.Intn(2) == 0, ReadErr: rnd.Intn(2) == 0}
+		in := input{Entry: entry, K0: k0, K1: k1, CloseErr: rnd.Intn(2) == 0, ReadErr: rnd.Intn(2) == 0,
+			F0: failKinds[rnd.Intn(nk)], F1: failKinds[rnd.Intn(nk)]}
+		if rnd.Intn(3) == 0 {
+			in.End = "deadline"
+		}
 		if rnd.Intn(2) == 0 {
 			in.S0 = shapes[rnd.Intn(len(shapes))]
 		}
